@@ -382,5 +382,15 @@ def main(tier):
     return code
 
 
+def replay(obj):
+    if "behaviour" not in obj:
+        return True, obj
+    r = run_behaviour(obj["behaviour"])
+    if "machinery" in r:
+        return True, r
+    known = bool(r.get("fails")) and common.Verdict(PROP).match_known(r["key"]) is not None
+    return bool(r.get("fails")) and not known, {k: r.get(k) for k in ("fails", "key", "step", "obs", "expected")}
+
+
 if __name__ == "__main__":
     sys.exit(main(sys.argv[1] if len(sys.argv) > 1 else "quick"))
